@@ -515,6 +515,36 @@ pub fn leak_check(tcp: bool, hist: &[Step]) -> Option<Violation> {
     let joint = run(hist);
     let timing = joint.iter().find(|b| b.property == "C06")?;
     let ids: Vec<u8> = (0..3u8).filter(|i| hist.iter().any(|s| matches!(s.act, Act::Send { id, .. } if id == *i))).collect();
+    // (a) instants of calls made while nothing was outstanding (idle polls) must not matter either:
+    // the same history without its idle polls
+    {
+        let mut live = 0usize;
+        let mut spec = Spec::new(tcp);
+        let mut real = Real::new(tcp, base_instant());
+        let mut idle_polls: Vec<usize> = Vec::new();
+        for (i, st) in hist.iter().enumerate() {
+            if matches!(st.act, Act::Poll { .. }) && live == 0 {
+                idle_polls.push(i);
+            }
+            if !lockstep(&mut spec, &mut real, st, "C20").is_empty() {
+                break;
+            }
+            live = spec.live.len();
+        }
+        if !idle_polls.is_empty() {
+            let without: Vec<Step> = hist.iter().enumerate().filter(|(i, _)| !idle_polls.contains(i)).map(|(_, s)| *s).collect();
+            if run(&without).is_empty() {
+                return Some(Violation {
+                    property: "C20".into(),
+                    signature: "C20/idle-call-leak".into(),
+                    what: format!("a transaction's schedule depends on the instant of a poll made while nothing was outstanding: the history breaches `{}` ({}), the same history without its {} idle poll(s) follows the schedule", timing.clause, timing.what, idle_polls.len()),
+                    expected: timing.expected.clone(),
+                    observed: timing.observed.clone(),
+                    replay: replay_json(tcp, hist, Some(json!("leak"))),
+                });
+            }
+        }
+    }
     if ids.len() < 2 {
         return None;
     }
